@@ -5,18 +5,38 @@ use crate::sexp::Sexp;
 use digest::{Digest, FixedOutput, KeyInit, Mac, Update};
 use std::collections::HashMap;
 
+/// Oracle.v `nenc`: 4 bytes big-endian when the number fits, wider otherwise (never truncated here)
 fn be_u32(b: &[u8]) -> u32 {
     let mut v: u64 = 0;
     for x in b {
+        if v >> 56 != 0 {
+            left_domain("number", "wider than 64 bits");
+            return u32::MAX;
+        }
         v = (v << 8) | *x as u64;
     }
+    if v > u32::MAX as u64 {
+        left_domain("number", "does not fit 32 bits");
+        return u32::MAX;
+    }
     v as u32
+}
+
+fn left_domain(name: &str, why: &str) {
+    let mut l = crate::report::LEFT_DOMAIN.lock().unwrap_or_else(|e| e.into_inner());
+    if l.len() < 20 {
+        l.push(format!("{name}: {why}"));
+    }
 }
 
 const T: &[u8] = &[1];
 const F: &[u8] = &[0];
 
 fn blake2b(outlen: usize, key: &[u8], msg: &[u8]) -> Vec<u8> {
+    if key.len() > 64 {
+        left_domain("blake2b", "key longer than 64 bytes");
+        return vec![0u8; outlen.min(1 << 20)];
+    }
     use blake2::digest::consts::{U16, U24, U32, U33, U48, U56, U64};
     macro_rules! go {
         ($n:ty) => {{
@@ -39,7 +59,10 @@ fn blake2b(outlen: usize, key: &[u8], msg: &[u8]) -> Vec<u8> {
         48 => go!(U48),
         56 => go!(U56),
         64 => go!(U64),
-        n => panic!("blake2b: unsupported output length {n}"),
+        n => {
+            left_domain("blake2b", &format!("output length {n}"));
+            vec![0u8; n.min(1 << 20)]
+        }
     }
 }
 
@@ -92,7 +115,12 @@ pub fn oracle(cache: &mut RsaCache, name: &str, a: &[Vec<u8>]) -> Vec<Vec<u8>> {
         }
         "hkdf384" => {
             let salt = if a[0].is_empty() { None } else { Some(&a[0][..]) };
-            let mut out = vec![0u8; be_u32(&a[3]) as usize];
+            let n = be_u32(&a[3]) as usize;
+            if n > 255 * 48 {
+                left_domain("hkdf384", "output longer than 255*48");
+                return vec![vec![0u8; n.min(1 << 20)]];
+            }
+            let mut out = vec![0u8; n];
             hkdf::Hkdf::<sha2::Sha384>::new(salt, &a[1]).expand(&a[2], &mut out).expect("hkdf length");
             vec![out]
         }
@@ -117,7 +145,8 @@ pub fn oracle(cache: &mut RsaCache, name: &str, a: &[Vec<u8>]) -> Vec<Vec<u8>> {
         "aes256" => {
             use aes::cipher::{BlockEncrypt, KeyInit as _};
             if a[0].len() != 32 || a[1].len() != 16 {
-                return vec![vec![]];
+                left_domain("aes256", "key / block length");
+                return vec![vec![0u8; 16]];
             }
             let c = aes::Aes256::new_from_slice(&a[0]).unwrap();
             let mut b = aes::Block::clone_from_slice(&a[1]);
@@ -127,7 +156,8 @@ pub fn oracle(cache: &mut RsaCache, name: &str, a: &[Vec<u8>]) -> Vec<Vec<u8>> {
         "xchacha20" => {
             use chacha20::cipher::{KeyIvInit, StreamCipher};
             if a[0].len() != 32 || a[1].len() != 24 {
-                return vec![vec![]];
+                left_domain("xchacha20", "key / nonce length");
+                return vec![vec![0u8; (be_u32(&a[2]) as usize).min(1 << 20)]];
             }
             let mut out = vec![0u8; be_u32(&a[2]) as usize];
             chacha20::XChaCha20::new_from_slices(&a[0], &a[1]).unwrap().apply_keystream(&mut out);
@@ -137,7 +167,8 @@ pub fn oracle(cache: &mut RsaCache, name: &str, a: &[Vec<u8>]) -> Vec<Vec<u8>> {
             use chacha20poly1305::aead::AeadInPlace;
             use chacha20poly1305::KeyInit as _;
             if a[0].len() != 32 || a[1].len() != 24 {
-                return vec![];
+                left_domain("xcp_seal", "key / nonce length");
+                return vec![a[3].clone(), vec![0u8; 16]];
             }
             let c = chacha20poly1305::XChaCha20Poly1305::new_from_slice(&a[0]).unwrap();
             let mut buf = a[3].clone();
@@ -159,7 +190,10 @@ pub fn oracle(cache: &mut RsaCache, name: &str, a: &[Vec<u8>]) -> Vec<Vec<u8>> {
         }
         "ed_pk" => match <[u8; 32]>::try_from(&a[0][..]) {
             Ok(seed) => vec![ed25519_dalek::SigningKey::from_bytes(&seed).verifying_key().to_bytes().to_vec()],
-            Err(_) => vec![vec![]],
+            Err(_) => {
+                left_domain("ed_pk", "seed length");
+                vec![vec![0u8; 32]]
+            }
         },
         "ed_pk_ok" => match <[u8; 32]>::try_from(&a[0][..]) {
             Ok(pk) => vec![if ed25519_dalek::VerifyingKey::from_bytes(&pk).is_ok() { T } else { F }.to_vec()],
@@ -170,7 +204,10 @@ pub fn oracle(cache: &mut RsaCache, name: &str, a: &[Vec<u8>]) -> Vec<Vec<u8>> {
                 use ed25519_dalek::Signer;
                 vec![ed25519_dalek::SigningKey::from_bytes(&seed).sign(&a[1]).to_bytes().to_vec()]
             }
-            Err(_) => vec![vec![]],
+            Err(_) => {
+                left_domain("ed_sign", "seed length");
+                vec![vec![0u8; 64]]
+            }
         },
         "ed_verify" | "ed_verify_strict" => {
             let ok = (|| {
@@ -316,6 +353,8 @@ pub fn oracle(cache: &mut RsaCache, name: &str, a: &[Vec<u8>]) -> Vec<Vec<u8>> {
             vec![if ok.is_some() { T } else { F }.to_vec()]
         }
         "rsa_enc" => match cache.pk(&a[0]) {
+            // textbook RSA is a permutation of [0, n): a message not below the modulus has no image
+            Some(pk) if rsa::BigUint::from_bytes_be(&a[1]) >= *rsa::traits::PublicKeyParts::n(&pk) => vec![],
             Some(pk) => match rsa::hazmat::rsa_encrypt(&pk, &rsa::BigUint::from_bytes_be(&a[1])) {
                 Ok(c) => vec![c.to_bytes_be()],
                 Err(_) => vec![],
